@@ -23,6 +23,8 @@ run_props() { # name props...
     local v; v=$(grep -m1 -A1 '^VIOLATION' "/tmp/sens/$name-$p.out" | tail -1 | cut -c1-160 | iconv -f utf-8 -t utf-8 -c | tr '|' '/')
     echo "| $name | $p | $rc | $v |" >> "$OUT"
     echo "$name $p exit=$rc $v"
+    # SENS_FIRST_ONLY=1: one detecting check per change is enough (saves hours on a full pass)
+    if [ "${SENS_FIRST_ONLY:-0}" = "1" ] && [ "$rc" = "1" ]; then break; fi
   done
 }
 if [ "$MODE" = "fixes" ]; then
